@@ -1640,6 +1640,14 @@ class InterpStmts:
                         raise Unsupported("closure constant %s of %s is symbolic at the call site" % (cname, label))
                 elif have != want or type(have) is not type(want):
                     raise Unsupported("closure constant %s of %s is %r in its contract but %r at the call site" % (cname, label, want, have))
+        # 0b. call protocol of the function under verification: its contract may pin what it hands to a callee (`"calls": {callee qualname:
+        #     [clauses]}`; in a clause `arg_<p>` is the actual argument for the callee's parameter p, other names are the caller's, `old(x)` its entry values)
+        caller_c = self.cset.functions.get(getattr(self, "cur_key", None)) or {}
+        for i, text in enumerate((caller_c.get("calls") or {}).get(f.qualname, [])):
+            if st.pure:
+                break
+            g = self.eval_spec(text, st, {"arg_" + k: v for k, v in env.items()})
+            self.emit(st, "callarg", "%s[%d]" % (label, i), g)
         # 1. preconditions
         for i, r in enumerate(c.get("requires") or []):
             g = self.eval_spec(r, st, env, callee=f)
